@@ -266,4 +266,17 @@ PROPS = {
         "rule": "non-trivial: at least two test files, or a tree of depth >= 3, or an offset/sparse array in the tree. Distinct = distinct case JSON.",
         "assumptions": COMMON_ASSUMPTIONS,
     },
+    "C16": {
+        "level": "exploration",
+        "technique": "property-based testing / fuzzing (rapid): generated import path strings, import graphs and module layouts on a recording in-memory filesystem that serves a canary for every path outside the allowed root",
+        "level_text": "Generated-input search: module trees with or without go.mod, main scripts at three directory depths, and (a) 1-3 local imports whose path strings are built from "
+                      "segments {., .., names, empty, blank-padded names, ..., backslashes, tabs, %2e%2e} with ./, /, doubled and blank-padded prefixes and suffixes; (b) the same data file imported by "
+                      "2-7 different spellings and through different importers; (c) import graphs with self-, 2- and 3-cycles, directly or through a diamond. The source filesystem records every content "
+                      "read and answers any read outside the module root (the script's directory when there is no module) with a canary file. Oracle: no read outside the root, the canary never appears in "
+                      "the result, no panic, all spellings of one file give Equal values, a cyclic graph yields an error within 20 s (a goroutine parked in the import cache is the violation).",
+        "level_note": "Trusted: the recording filesystem wrapper (Stat of go.mod while walking up is not a read), afero MemMapFs, the 20 s bound, rapid. External (module/network) imports are excluded: they cannot be exercised offline.",
+        "tests": [{"name": "TestC16", "quick": 1500, "thorough": 25000}],
+        "rule": "non-trivial: a path containing '..' or rooted at '/', or a main script below the root, or a consistency/cycle case. Distinct = distinct case JSON.",
+        "assumptions": COMMON_ASSUMPTIONS,
+    },
 }
